@@ -102,3 +102,60 @@ func zzC07_run() {
 	_ = cc.Close()
 	symWaitUntil(func() bool { return runDone })
 }
+
+// a frame much larger than the session's read buffer and its internal copy chunks (9000 bytes of payload), followed
+// in the same reads by small frames: each message is delivered once, in order, with its own content
+func zzC07_run_large() {
+	var got []zzGot
+	big := make([]byte, 9000)
+	for j := range big {
+		big[j] = byte(j * 7)
+	}
+	// a byte sequence inside the big payload that would parse as a small frame if framing ever resumed there
+	copy(big[8200:], zzMkFrame(codes.Content, message.Token{0xEE}, []byte{0x66}))
+	small1, small2 := []byte{0x31}, []byte{0x32, 0x33}
+	frames := [][]byte{
+		zzMkFrame(codes.Content, message.Token{0xA0}, big),
+		zzMkFrame(codes.Content, message.Token{0xA1}, small1),
+		zzMkFrame(codes.Content, message.Token{0xA2}, small2),
+	}
+	want := []zzGot{{[]byte{0xA0}, big}, {[]byte{0xA1}, small1}, {[]byte{0xA2}, small2}}
+	var stream []byte
+	for _, f := range frames {
+		stream = append(stream, f...)
+	}
+	nc := zzNewPipe()
+	cc := zzNewPipeConnH(nc, func(w *responsewriter.ResponseWriter[*Conn], r *pool.Message) {
+		g := zzGot{token: append([]byte(nil), r.Token()...)}
+		if b, err := r.ReadBody(); err == nil {
+			g.payload = b
+		}
+		got = append(got, g)
+	}, 16384)
+	runDone := false
+	go func() {
+		_ = cc.Run()
+		runDone = true
+	}()
+	symSchedCanonical(true)
+	// everything in one read, or cut inside the big frame / right after it / inside the next header
+	cut := []int{len(stream), 5000, len(frames[0]), len(frames[0]) + 1}[symChoose("cut", 4)]
+	nc.in <- append([]byte(nil), stream[:cut]...)
+	symIdle()
+	if cut < len(stream) {
+		nc.in <- append([]byte(nil), stream[cut:]...)
+		symIdle()
+	}
+	symCover("large-delivered")
+	symAssert(!runDone && !nc.closed, "a well-formed stream keeps the connection open")
+	symAssert(len(got) == 3, "every message of the stream is delivered exactly once")
+	for i := 0; i < len(got) && i < 3; i++ {
+		symAssert(bytes.Equal(got[i].token, want[i].token) && bytes.Equal(got[i].payload, want[i].payload), "in stream order, with its own token and payload")
+	}
+	_ = cc.Close()
+	symWaitUntil(func() bool { return runDone })
+}
+
+// C03 view: responses that follow a large one in the same read reach their own callers' handlers, nothing inside a
+// large payload is taken for a message
+func zzC03_tcp_large() { zzC07_run_large() }
